@@ -620,6 +620,87 @@ func c11Search(c *Ctx) {
 		nshape++
 	}
 	r.Histogram["search_nesting_shapes"] = nshape
+
+	// (d) dependent shapes: a run-time sized inner call whose length / key set differs from one
+	// outer fork to the next (including empty), optionally around a third level: every fork of
+	// the node, for every assignment of inner sources to outer forks
+	type spec struct {
+		n    int
+		keys []string
+	}
+	outers := []dim{{"arr", 2, true, nil}, {"arr", 3, true, nil}, {"map", 2, true, []string{"a", "b"}}, {"arr", 3, false, nil}}
+	inner := map[string][]spec{
+		"arr": {{0, nil}, {1, nil}, {2, nil}, {3, nil}, {11, nil}},
+		"map": {{0, nil}, {1, []string{"a"}}, {2, []string{"a", "b"}}, {2, []string{"a/fork_b", "b"}}, {2, []string{"fork0", "0"}}},
+	}
+	thirds := []*dim{nil, {"arr", 2, true, nil}, {"map", 2, true, []string{"x", "y"}}, {"arr", 2, false, nil}}
+	ndep := 0
+	mk := func(d dim, i int) c11Part {
+		if d.kind == "arr" {
+			return c11Part{Kind: "arr", Index: i, Len: d.n, Static: d.static}
+		}
+		return c11Part{Kind: "map", Key: d.keys[i], Keys: d.keys, Static: d.static}
+	}
+	for _, od := range outers {
+		for _, ik := range []string{"arr", "map"} {
+			specs := inner[ik]
+			assign := make([]int, od.n)
+			for {
+				for _, th := range thirds {
+					forks = forks[:0]
+					for o := 0; o < od.n; o++ {
+						sp := specs[assign[o]]
+						var mids []c11Part
+						if sp.n == 0 {
+							mids = []c11Part{{Kind: "empty"}}
+						} else {
+							for j := 0; j < sp.n; j++ {
+								mids = append(mids, mk(dim{ik, sp.n, false, sp.keys}, j))
+							}
+						}
+						for _, m := range mids {
+							if th == nil {
+								forks = append(forks, c11Fork{parts: []c11Part{mk(od, o), m}})
+								continue
+							}
+							for t := 0; t < th.n; t++ {
+								forks = append(forks, c11Fork{parts: []c11Part{mk(od, o), m, mk(*th, t)}})
+							}
+						}
+					}
+					okAll := true
+					for fi := range forks {
+						id, ok, e := c11ForkId(forks[fi].parts)
+						if !ok {
+							r.violate(Violation{Kind: "property", Key: "C11:forkid-error", What: "ForkIdString fails for a well-formed fork id: " + e, Input: c11ShowParts(forks[fi].parts)})
+							okAll = false
+							break
+						}
+						forks[fi].id = id
+					}
+					if okAll {
+						c11CheckDistinct(c, forks, "dependent-shapes")
+						r.Evals += len(forks)
+						r.Distinct += len(forks)
+						ndep++
+					}
+				}
+				j := 0
+				for j < od.n {
+					assign[j]++
+					if assign[j] < len(specs) {
+						break
+					}
+					assign[j] = 0
+					j++
+				}
+				if j == od.n {
+					break
+				}
+			}
+		}
+	}
+	r.Histogram["search_dependent_shape_nodes"] = ndep
 }
 
 // ---------- 4. the journal regex as a parser ----------
